@@ -1,19 +1,66 @@
+import os, re
 from checks.generic import standard
 
+# Model/CertgenCases.v obs_violation: the property's predicate evaluated on the OBSERVED class of a
+# case on which implementation and model differ
+VIOLATION_CLASS = {
+    1: ("issued-unentitled", "a certificate came back although, by the specification (Proofs/CertgenSpec.v proves / qualifies, decided by "
+                             "Model/CertgenCases.v entitled; theorem c01_entitled_decides), the request does not entitle the named user: "
+                             "sealed server, not POST, another URL name, or no valid credential of the request establishes the user at a level the operator's list accepts"),
+    2: ("no-error", "neither a certificate nor an error status"),
+}
+
+def model_oracle(ctx, res, name, idxfile, block):
+    """every (index, class) pair of <name> becomes an oracle hit whose case is the idx line: the mismatching
+       case IS a concrete input on which the implementation violates the property"""
+    val = res.get(name)
+    if not val or val == "[]":
+        return
+    lines = []
+    p = os.path.join(ctx.work, idxfile)
+    if os.path.exists(p):
+        lines = open(p).read().split("\n")
+    seen = {}
+    for m in re.finditer(r"\(\s*(\d+)(?:%nat)?\s*,\s*(\d+)\s*\)", val):
+        i, cls = int(m.group(1)), int(m.group(2))
+        cname, oracle = VIOLATION_CLASS.get(cls, ("class-%d" % cls, "property predicate on the observation"))
+        key = "C01:model-oracle:%s:%s" % (cname, block)
+        n = seen.get(key, 0)
+        seen[key] = n + 1
+        if n >= 20:
+            continue
+        line = lines[i] if i < len(lines) else "case %d" % i
+        ctx.hits.append({"key": key, "oracle": oracle, "what": line.split("\t", 1)[-1], "case": line,
+                         "observed": {"index": i, "violation_class": cname}, "kind": "input"})
+
 def run(ctx):
+    orig = ctx.eval_cases
+    def eval_cases(vfile, label="correspondence", timeout=1800):
+        res = orig(vfile, label, timeout)
+        if res is not None:
+            model_oracle(ctx, res, "c01_violating", "CasesC01.idx", "enumeration")
+            model_oracle(ctx, res, "c01_combined_violating", "CasesC01x.idx", "combined-credentials")
+        return res
+    ctx.eval_cases = eval_cases
     return standard(ctx,
         props=[("Props.C01", ["c01_sound", "c01_sealed_refuses_everything", "c01_forwarding_headers_ignored", "c01_ip_certificate_needs_peer_inside", "c01_sufficient_iff", "c01_password_only_refused", "c01_password_session_401",
                               "c01_everything_else_refused", "c01_refused_is_error", "c01_complete_session",
-                              "c01_complete_password", "c01_complete_cert", "c01_strict_refuted", "c01_old_refuted"])],
+                              "c01_complete_password", "c01_complete_cert",
+                              "c01_certificate_decides", "c01_credentials_beside_certificate_ignored", "c01_nameless_certificate_no_identity",
+                              "c01_session_issuer_exact", "c01_foreign_session_refused",
+                              "c01_entitled_decides", "c01_issued_entitled",
+                              "c01_strict_refuted", "c01_old_refuted"])],
         harness=("TestVerif_C01", ["kmd/common.go", "kmd/creds.go", "kmd/consts.go", "kmd/c01.go"]),
         obl=("Obl_C01.v", ["c01_bits", "c01_bits_are_factors", "c01_method_strings", "c01_route", "c01_password_only"]),
         cases=("CasesC01.v", [("c01_mismatches", "result class of every enumerated request (issued for whom / error / neither) = model certgen, recomputed by Coq from the case index"),
                               ("c01_size_mismatches", "harness and model enumerate the same tables"),
+                              ("c01_combined_mismatches", "combined credentials (client certificate x cookie state x Basic header, same and other user) and the issuer / audience near-miss family: result class = model certgen", "CasesC01x.idx"),
+                              ("c01_combined_size_mismatches", "harness and model build the same combination table and the same issuer strings"),
                               ("c01_tls_mismatches", "the same handler behind a real crypto/tls server (client certificates really presented) = model")], "CasesC01.idx"),
         trusted=["signatures are symbolic in the model (a token/chain carries whether it verifies); the harness presents really signed, re-signed, alg:none, HMAC-with-public-key and bit-flipped tokens and real X.509 chains to the real go-jose / crypto/x509 code",
                  "TLS chain verification is done by crypto/tls; the enumeration sets VerifiedChains to chains built from really signed certificates, and eight cases go through a real TLS handshake configured like main()",
-                 "the table of credential shapes exists twice (Model/CertgenCases.v and harness/kmd/c01.go); a divergence shows up as a correspondence mismatch, never as silence",
+                 "the tables of credential shapes and combinations exist twice (Model/CertgenCases.v and harness/kmd/c01.go); a divergence shows up as a correspondence mismatch, never as silence",
                  "multipart, duration and key parsing run in front of the model (inputs q_form_ok, q_key; C03/C10 are about them)"],
         assumptions=["clock: cookies are minted relative to time.Now() at request time with margins of at least 30 s, the model evaluates them at now = 0",
-                     "client-certificate common names are non-empty (an empty CN falls through to the cookie branch in checkAuth; not modelled)"],
+                     "the automation-user test answers for the empty name what the configuration says (the harness lists \"\" as an automation user so that a nameless address-restricted certificate reaches the fall-through to the cookie code)"],
         timeout=2400)
